@@ -1,5 +1,7 @@
 #![allow(dead_code)]
 mod util;
+mod c14;
+mod c13;
 mod c15;
 mod c06;
 mod c02;
@@ -28,6 +30,8 @@ fn main() {
         "sparql" => sparql::main(&a),
         "c06" => c06::main(&a),
         "c15" => c15::main(&a),
+        "c13" => c13::main(&a),
+        "c14" => c14::main(&a),
         other => {
             eprintln!("unknown driver {other}");
             std::process::exit(2);
